@@ -813,7 +813,7 @@ func (c *Compiler) writeNode(node, parent *node, recv, v, vsrc string, depth int
 			case "string", "[]byte":
 				c.wl("*buf = append((*buf)[:0], ", c.fmtVnb(node.mapk, "k", depth+1), "...)")
 			case "bool":
-				c.wl(`if k { *buf = append((*buf)[:0], "true"...) } else { *buf = append(*buf[:0], "false"...) }`)
+				c.wl(`if k { *buf = append((*buf)[:0], "true"...) } else { *buf = append((*buf)[:0], "false"...) }`)
 			case "int", "int8", "int16", "int32", "int64":
 				c.wl("*buf = strconv.AppendInt((*buf)[:0], int64(", c.fmtVnb(node.mapk, "k", depth+1), "), 10)")
 			case "uint", "uint8", "uint16", "uint32", "uint64":
